@@ -329,6 +329,11 @@ pub fn install_panic_hook() {
             "<non-string panic>".to_string()
         };
         let loc = info.location().map(|l| format!("{}:{}", l.file(), l.line())).unwrap_or_default();
+        if ["unsafe precondition", "misaligned pointer dereference", "null pointer dereference"].iter().any(|w| msg.contains(w)) {
+            // std's debug-assertion checks of unsafe preconditions panic without unwinding: the process is
+            // about to abort and this message is the only trace of why, keep it on stderr for the parent
+            eprintln!("NON-UNWINDING PANIC: {msg} @ {loc}");
+        }
         if GUARD_DEPTH.with(|g| g.get()) == 0 {
             // a panic outside any guarded subject call: either the harness itself, or the library
             // panicking in a call the harness did not expect to fail. Make it visible and keep it.
